@@ -108,6 +108,9 @@ func definitize(txt string) string {
 	return txt
 }
 
+// buildCover: all hypotheses of the function (contracts assumed at calls, invariants, the
+// obligations themselves) together with "some return is reached" must NOT be refutable;
+// if it is, the contracts are contradictory and every obligation holds vacuously.
 func buildCover(eng *Engine, solver string, fv *funcVC) string {
 	var sb strings.Builder
 	sb.WriteString(eng.prelude(solver))
@@ -125,6 +128,42 @@ func buildCover(eng *Engine, solver string, fv *funcVC) string {
 	}
 	sb.WriteString("(assert " + or(fv.RetReach...) + ")\n(check-sat)\n")
 	return eng.finishQuery(sb.String())
+}
+
+// coverAll runs the vacuity check for every function; returns the names of vacuous ones.
+func coverAll(eng *Engine, fvs []*funcVC, opt solveOpts) (vacuous []string, checked int) {
+	var mu sync.Mutex
+	var wg sync.WaitGroup
+	ch := make(chan *funcVC)
+	for w := 0; w < opt.workers*2; w++ {
+		wg.Add(1)
+		go func() {
+			defer wg.Done()
+			for fv := range ch {
+				if len(fv.RetReach) == 0 {
+					continue
+				}
+				file := filepath.Join(opt.dir, "cover_"+strings.NewReplacer("/", "_", "(", "", ")", "", "*", "").Replace(fv.Name)+".smt2")
+				os.WriteFile(file, []byte(buildCover(eng, "z3", fv)), 0o644)
+				st, _, _ := runSolver("z3new", file, 5*time.Second)
+				mu.Lock()
+				checked++
+				if st == "unsat" {
+					vacuous = append(vacuous, fv.Name)
+				}
+				mu.Unlock()
+				if !opt.keep {
+					os.Remove(file)
+				}
+			}
+		}()
+	}
+	for _, fv := range fvs {
+		ch <- fv
+	}
+	close(ch)
+	wg.Wait()
+	return
 }
 
 var solverCmd = map[string][]string{
@@ -183,7 +222,7 @@ type solveOpts struct {
 
 // incremental pre-pass: one z3 process per chunk of obligations of a function, push/pop per
 // obligation, short per-query limit. Whatever is not proved here goes to the per-obligation portfolio.
-const incChunk = 40
+const incChunk = 25
 
 func buildIncremental(eng *Engine, fv *funcVC, lo, hi int, ms int) (string, []int) {
 	var sb strings.Builder
@@ -245,7 +284,7 @@ func solveIncremental(eng *Engine, fvs []*funcVC, opt solveOpts) map[*Oblig]int6
 			defer wg.Done()
 			for ci := range ch {
 				c := chunks[ci]
-				qs, idx := buildIncremental(eng, c.fv, c.lo, c.hi, 1500)
+				qs, idx := buildIncremental(eng, c.fv, c.lo, c.hi, 800)
 				file := filepath.Join(opt.dir, fmt.Sprintf("inc%05d.smt2", ci))
 				os.WriteFile(file, []byte(qs), 0o644)
 				start := time.Now()
@@ -379,17 +418,23 @@ func solveOne(eng *Engine, fv *funcVC, k, id int, opt solveOpts) *Result {
 	type ans struct {
 		s, st, out string
 	}
-	ch := make(chan ans, len(opt.solvers))
-	for _, s := range opt.solvers {
+	stage2 := opt.solvers
+	if !opt.allAgree {
+		// the quick tier already ran z3new, cvc5 and z3qi: only what is new
+		stage2 = []string{"z3", "z3cs"}
+		files["z3cs"] = files["z3new"]
+	}
+	ch := make(chan ans, len(stage2))
+	for _, s := range stage2 {
 		go func(s string) {
 			st, out, _ := runSolver(s, files[s], opt.timeout)
 			ch <- ans{s, st, out}
 		}(s)
 	}
 	proved := ""
-	sawSat := false
+	sawSat := res.Status == "sat"
 	var answers []string
-	for range opt.solvers {
+	for range stage2 {
 		a := <-ch
 		answers = append(answers, a.s+"="+a.st)
 		if a.st == "unsat" && proved == "" {
@@ -415,7 +460,8 @@ func solveOne(eng *Engine, fv *funcVC, k, id int, opt solveOpts) *Result {
 		files["z3cs"] = files["z3new"]
 		type a3 struct{ s, st string }
 		c3 := make(chan a3, 2)
-		for _, s := range []string{"z3cs", "cvc5"} {
+		files["z3qi"] = files["z3new"]
+		for _, s := range []string{"z3qi", "cvc5"} {
 			go func(s string) {
 				st, _, _ := runSolver(s, files[s], 3*opt.timeout)
 				c3 <- a3{s, st}
